@@ -104,7 +104,7 @@ def conformance():
     routes = [('/', lambda: Response('plain')),
               ('/stream', lambda: Response(gen())),
               ('/ctx', lambda: {'a': 1}, render_basic),
-              ('/branch/', lambda: Response('branch')),
+              ('/branch/', lambda: Response('branch')), ('/items/<name>/', lambda name: Response('item')),
               ('/boom', boom), ('/err', err),
               ('/ret_err', lambda: Forbidden(is_breaking=False)),
               Route('/post', lambda: Response('posted'), methods=['POST']),
@@ -113,7 +113,7 @@ def conformance():
     try:
         for mws in ([], [GzipMiddleware()], [HTTPCacheMiddleware()]):
             app = Application(routes, middlewares=mws)
-            for path in ('/', '/stream', '/ctx', '/branch', '/branch/', '/boom', '/err', '/ret_err', '/post', '/nope',
+            for path in ('/', '/stream', '/ctx', '/branch', '/branch/', '/items/a%01b', '/items/x%1Fy/', '/boom', '/err', '/ret_err', '/post', '/nope',
                          '/static/f.txt', '/static/missing', '/meta/'):
                 for method in ('GET', 'HEAD', 'POST', 'OPTIONS'):
                     for accept in (None, 'application/json', 'text/html'):
